@@ -323,6 +323,10 @@ func buildIntrinsics() map[string]Intrinsic {
 			m.maxPreempt = int(m.concreteInt(fr, a[0].(*Term), "preemption bound"))
 			return nil
 		}
+		t[p+"vGhostTimeSlip"] = func(m *Machine, fr *Frame, fn *ssa.Function, a []Value) Value {
+			m.timeSlip = m.concreteInt(fr, a[0].(*Term), "time slip")
+			return nil
+		}
 		t[p+"vGhostExploreOff"] = func(m *Machine, fr *Frame, fn *ssa.Function, a []Value) Value {
 			m.exploreSched = false
 			return nil
